@@ -41,7 +41,7 @@ Theorem C11_old_generation_completes :
      forall gi g, nth_error (w_gens w) gi = Some g ->
        nth_error (w_gens w') gi = Some g /\
        forall now' m, snd (flt_handle (w_heap w') g now' m) = snd (flt_handle (w_heap w) g now' m)).
-Proof. split; [intros ops H; apply rl_ideal_never_panics; [exact fwf0 | exact H] | exact rl_inherit_frame]. Qed.
+Proof. exact old_generation_completes. Qed.
 Print Assumptions C11_old_generation_completes.
 
 (** kinds whose Inherit is Init (Proxy, Validator, adaptors, Mock, ...), for every behaviour
@@ -52,19 +52,22 @@ Theorem C11_old_generation_completes_pure_kinds :
   nth_error gs g = Some x ->
   answers g ops (pk_run behave gs ops) =
   solo_from behave (kg_spec x) (kg_hist x) (handled g (List.length gs) ops).
-Proof. intros O behave. exact (pure_kind_generation_is_solo behave). Qed.
+Proof. exact @pure_kind_generation_is_solo. Qed.
 Print Assumptions C11_old_generation_completes_pure_kinds.
 
-(** pipeline generations (ideal): no Init/Inherit/Handle panics, and every existing generation -
-    also the one just inherited from and closed - handles a request exactly as before *)
+(** pipeline generations (ideal): no Init/Inherit/Handle ever panics; and a request that holds a
+    generation [x]: whatever pipeline operations follow (updates inheriting from it, its Close,
+    traffic on any generation), [x] stays in place, no existing filter instance is modified
+    (instances are only appended, so interleaving at filter granularity changes nothing), and [x]
+    handles the request exactly as it would have at the start, without panic *)
 Theorem C11_old_pipeline_generation_completes :
   (forall specs ops, Forall obs_fine (pl_run rideal specs pl_world0 ops)) /\
-  (forall specs w o w' ob, pl_wf w -> pl_step rideal specs w o = (w', ob) ->
-     pl_wf w' /\ obs_fine ob /\
-     forall g x, nth_error (pw_gens w) g = Some x ->
-       nth_error (pw_gens w') g = Some x /\
-       pl_flow_run (pw_insts w') (pg_flow x) [] = pl_flow_run (pw_insts w) (pg_flow x) []).
-Proof. split; [intros specs ops; apply pl_ideal_never_panics; exact pl_wf0 | exact pl_ideal_step]. Qed.
+  (forall specs ops w g x, pl_wf w -> nth_error (pw_gens w) g = Some x ->
+     nth_error (pw_gens (pl_final rideal specs w ops)) g = Some x /\
+     (exists more, pw_insts (pl_final rideal specs w ops) = pw_insts w ++ more) /\
+     pl_flow_run (pw_insts (pl_final rideal specs w ops)) (pg_flow x) [] = pl_flow_run (pw_insts w) (pg_flow x) [] /\
+     snd (pl_flow_run (pw_insts w) (pg_flow x) []) <> PPanic).
+Proof. exact old_pipeline_generation_completes. Qed.
 Print Assumptions C11_old_pipeline_generation_completes.
 
 (** the pinned code ([prev.rl = nil]): a valid history on which the superseded generation panics *)
